@@ -115,6 +115,15 @@ def extract_facts(repo=None, profile="dev", crate="in_toto"):
             if doc.get("nonce") != nonce:
                 sh(["rm", "-rf", out_dir])
                 raise SystemExit("itv: stale facts (nonce mismatch) - failing closed")
+        # bounded cache: keep the most recently used fact sets only
+        try:
+            os.utime(out_dir, None)
+            root = os.path.join(CACHE, "facts")
+            ents = sorted((os.path.getmtime(os.path.join(root, d)), d) for d in os.listdir(root))
+            for (_m, d) in ents[:-16]:
+                sh(["rm", "-rf", os.path.join(root, d)])
+        except OSError:
+            pass
         fx = Facts.load(out)
         info["fns"] = len(fx.doc["fns"])
         info["adts"] = len(fx.doc["adts"])
